@@ -102,6 +102,16 @@ class TorchLikeDtype:
         return self._p + self._n
 
 
+class EnumLikeDtype(TorchLikeDtype):
+    """a dtype object printing like 'paddle.float32' that ALSO has a .name (an enum / pybind11-enum member: 'FP32'): the dtype's name is
+    still the tail of its repr"""
+
+    def __init__(self, name, prefix="paddle."):
+        super().__init__(name, prefix)
+        self.name = "DT_" + name.upper()
+        self.value = 7
+
+
 def stack_depth() -> int:
     """Depth of the context stack, observed only through public behaviour is impossible; this
     helper reads the private storage and is used solely for harness hygiene assertions (a
